@@ -1051,9 +1051,9 @@ def run(ctx, res, layers, floor_fns, floor_sites, extra_roots=(), label="PANIC-I
         # a reviewed site whose local variable was renamed: same function, kind and shape, same guards
         ck = canon_key(k)
         alt = None
-        if ck != k or True:
+        if True:
             for rk, rrow in residue.items():
-                if rk in used_rows or rk in seen and seen[rk] > 0 and rk == k:
+                if rk == k:
                     continue
                 if rk.split(" # ", 1)[0] != f.path or canon_key(rk) != ck:
                     continue
